@@ -3,6 +3,7 @@ use vstd::prelude::*;
 use std::convert::{TryFrom, TryInto};
 verus! {
 global size_of usize == 8;
+//@ include units/common/float.inc.rs
 pub type Int = isize;
 //@ include units/raw_geom/geom.inc.rs
 
